@@ -136,6 +136,8 @@ ENUM_ALPHABET = (
 
 
 def enumerate_cases(tier: str):
+    # one event of every kind under every environment dimension (transport kind, logging, warnings, a bystander gateway, registry file, ...)
+    yield from drive.env_sweep_cases()
     depth = 3 if tier == "quick" else 4
     versions = VERSIONS if tier == "thorough" else ("1.5", "2.1")
     for version in versions:
@@ -217,6 +219,8 @@ def _nontrivial(case: dict) -> bool:
 
 
 def run_case(case: dict) -> Outcome:
+    if case.get("kind") == "envsweep":
+        return drive.run_env_case(case, ASPECTS)
     nontrivial = _nontrivial(case)
     if case.get("mode") == "queue":
         a = env.run(drive.run_plain(case, batch=False))
